@@ -108,6 +108,14 @@ func c14Init() {
 		c14View = append(c14View, view...)
 		return reflect.ValueOf(c14Rec("jf", args...))
 	})
+	s.AddGlobalFunc("jp2", func(a jet.Arguments) reflect.Value {
+		a.RequireNumOfArguments("jp2", 2, -1)
+		var s1, s2 string
+		if err := a.ParseInto(&s1, &s2); err != nil {
+			panic(err)
+		}
+		return reflect.ValueOf(c14Rec("jp2", s1, s2))
+	})
 	// conversion targets
 	s.AddGlobal("cvint", func(i int) string { return fmt.Sprint(i) })
 	s.AddGlobal("cvfloat64", func(f float64) string { return fmt.Sprint(f) })
@@ -126,6 +134,9 @@ func c14Init() {
 	})
 	s.AddGlobal("iv7", 7).AddGlobal("bytes", []byte("bb"))
 	s.AddGlobal("jsonv", map[string]interface{}{"a": []int{1, 2}, "b": "<x>"})
+	var nilsl []string
+	var nilmp map[string]int
+	s.AddGlobal("lennilsl", nilsl).AddGlobal("lenpnilsl", &nilsl).AddGlobal("lenpnilmap", &nilmp).AddGlobal("lenparr", &[2]int{1, 2})
 	s.AddGlobal("lensl", []int{1, 2, 3}).AddGlobal("lenmap", map[string]int{"a": 1, "b": 2})
 	c14Set = s
 }
@@ -341,8 +352,10 @@ func c14Tables(v *c14Vec) Result {
 			switch bi.Args[0] {
 			case "lensl":
 				want = "3"
-			case "lenmap":
+			case "lenmap", "lenparr":
 				want = "2"
+			case "lennilsl", "lenpnilsl", "lenpnilmap":
+				want = "0"
 			default:
 				want = fmt.Sprint(len(a[0]))
 			}
